@@ -6,7 +6,9 @@ CONSTANT Presenters = {1, 2, 3}
 CONSTANT EpochIds = {1, 2, 3, 4, 5}
 CONSTANT MaxSteps = 11
 CONSTANT Ops <- ConcOps
-CONSTANT SessChecksDisabled = FALSE
+CONSTANT SessChecksDisabled = TRUE
+CONSTANT RefreshUpserts = TRUE
+CONSTANT InFlightOps = {}
 SPECIFICATION Spec
 INVARIANT BehaviourExportConc
 CHECK_DEADLOCK FALSE
